@@ -718,6 +718,17 @@ class Sim:
         h = self.h
         dev_spec = scn["device"]
         device = B.build_device(dev_spec, mesh_from=self.mesh_from, history=scn.get("device_history"))
+        if scn.get("device_restored"):
+            # device life cycle: the meshed device was saved in an earlier session and the run uses the
+            # object read back from that file
+            pth = os.path.join(self.root, f"restored_device_{len(os.listdir(self.root))}.h5")
+            try:
+                device.to_hdf5(pth)
+                device = tdgl.Device.from_hdf5(pth)
+            finally:
+                if os.path.exists(pth):
+                    os.remove(pth)
+            h.probe("device_restored")
         h.device = device
         if device.terminals and not scn.get("allow_empty_terminal"):
             for ti in device.terminal_info():
